@@ -18,7 +18,9 @@ PROP = [('InverseMatcher returned','C01'),('RequireMatcher.skip_to_quality','C05
  ('Decimal values with fewer digits','C13'),('required prefix is longer','C19'),('was not idempotent for three','C15'),('sortable float NUMERIC','C08'),('doc_field_length() returned None','C06'),
  ('sortable DATETIME column','C08'),('CompressedBytesColumn had no default','C08'),('MultiReader.column_reader()','C08'),
  ('in-memory codec recorded empty','C18'),('add_document() that raised part-way','C08'),('plain-text codec could not write','C10'),
- ('inlinelimit > 1) raised AttributeError','C10'),('inlinelimit > 1) broke term vectors','C10')]
+ ('inlinelimit > 1) raised AttributeError','C10'),('inlinelimit > 1) broke term vectors','C10'),
+ ('results page over an empty result','C14'),('empty filter (set or Results)','C14'),('collapsing never folded','C14'),
+ ('single clause lost its boost','C09'),('partly filled top-N list','C14')]
 log = subprocess.check_output(['git','-C','/repo','log','--reverse','--format=%h|%s','173ed2e..HEAD']).decode().strip().split('\n')
 p = '/verif/known_findings.json'
 d = json.load(open(p))
